@@ -1939,6 +1939,35 @@ def run_transl(ctx, M):
         n += 1
     for name in ("read_uintvar", "read_sintvar", "read_uint8", "read_opaque", "read_opaque_defined_size"):
         ctx.count("transl:" + name, n)
+    # the writers (t.mb.wuint / wsint / wsint1 / wfrac): boundaries of the septet count and of the asserted ranges, negative values,
+    # the default negative_zero, fractions with trailing zero septets, precision <= 0, negative dec_part
+    def hres(fn, *a):
+        try:
+            return hx(fn(*a))
+        except Exception as e:  # noqa
+            return _ie(e)
+
+    vals = [0, 1, 2, 63, 64, 127, 128, 129, 16383, 16384, 2 ** 21 - 1, 2 ** 21, 2 ** 28, 2 ** 31 - 1, 2 ** 31, 2 ** 32 - 1, 2 ** 32, 2 ** 40, -1, -5]
+    vals += [128 ** k * j + d for k in range(5) for j in (1, 63, 64, 127) for d in (-1, 0, 1)]
+    vals += [rng.getrandbits(rng.randrange(1, 34)) for _ in range(ctx.budget(400, 4000))]
+    m = 0
+    for v in vals:
+        pairs.append((f"t.mb.wuint {v}", hres(M.write_uintvar, v)))
+        for sv in (v, -v):
+            nz = rng.random() < 0.3
+            pairs.append((f"t.mb.wsint {sv} {1 if nz else 0}", hres(M.write_sintvar, sv, nz)))
+            pairs.append((f"t.mb.wsint1 {sv}", hres(M.write_sintvar, sv)))
+        m += 1
+    k = 0
+    for _ in range(ctx.budget(600, 6000)):
+        p = rng.choice([-1, 0, 1, 2, 3, 4, 5, 8])
+        d = rng.choice([0, 1, 127, 128, 128 ** 2, rng.getrandbits(rng.randrange(1, 40)), -rng.getrandbits(10), 128 ** max(p, 0) - 1, 128 ** max(p, 0),
+                        rng.getrandbits(7) << (7 * rng.randrange(0, 5))])
+        pairs.append((f"t.mb.wfrac {d} {p}", hres(M.write_fraction, d, p)))
+        k += 1
+    ctx.count("transl:write_uintvar", m)
+    ctx.count("transl:write_sintvar", 4 * m)
+    ctx.count("transl:write_fraction", k)
     ctx.correspond("transl", pairs)
 
 
